@@ -9,8 +9,10 @@ import (
 	"crypto/sha512"
 	"encoding/json"
 	"fmt"
+	"math/rand"
 	"os"
 	"strings"
+	"sync"
 
 	hpke "github.com/cisco/go-hpke"
 	"github.com/cloudflare/circl/oprf"
@@ -297,12 +299,18 @@ func execIssuance(c *ctx, in ev) []ev {
 		return []ev{execRun(c, in)}
 	case "Verify":
 		return []ev{execVerify(c, in)}
+	case "VerifySeq":
+		return execVerifySeq(c, in)
+	case "RLSeq":
+		return execRLSeq(c, in)
 	case "RLEval":
 		return []ev{execRLEval(c, in)}
 	case "DetMatrix":
 		return execDet(c, in)
 	case "Vectors":
 		return execVectors(c, in)
+	case "DetStress":
+		return execDetStress(c, in)
 	}
 	return []ev{{"op": "unknown"}}
 }
@@ -455,37 +463,57 @@ func execRun(c *ctx, in ev) ev {
 // ---------------------------------------------------------------------------
 // C10: issuer-side verification of altered tokens
 
-func execVerify(c *ctx, in ev) ev {
-	t := gI(in, "t")
-	tm, _ := in["tmut"].(map[string]any)
+// verifyWorld: one honest token and the issuer OBJECTS that verify it (kept for a whole sequence)
+type verifyWorld struct {
+	t          int
+	suite      oprf.Suite
+	key, other *oprf.PrivateKey
+	tok        tokens.Token
+	verify     func(other bool, tok tokens.Token) error
+}
+
+func newVerifyWorld(c *ctx, t int, r *rand.Rand) *verifyWorld {
+	w := &verifyWorld{t: t}
+	if t == 1 {
+		w.suite, w.key, w.other = oprf.SuiteP384, p384Key(c.seed, "k1"), p384Key(c.seed, "k2")
+		a, err := honestT1(w.key, randBytes(r, 12), randNonce(r), false)
+		if err != nil {
+			panic(err)
+		}
+		w.tok = a.token
+		iss, issOther := type1.NewBasicPrivateIssuer(w.key), type1.NewBasicPrivateIssuer(w.other)
+		w.verify = func(o bool, tok tokens.Token) error {
+			if o {
+				return issOther.Verify(tok)
+			}
+			return iss.Verify(tok)
+		}
+	} else {
+		w.suite, w.key, w.other = oprf.SuiteRistretto255, ristrettoKey(c.seed, "k1"), ristrettoKey(c.seed, "k2")
+		a, err := honestT5(w.key, randBytes(r, 12), [][]byte{randNonce(r), randNonce(r)}, false)
+		if err != nil {
+			panic(err)
+		}
+		w.tok = a.tokens[1]
+		iss, issOther := type5.NewBatchedPrivateIssuer(w.key), type5.NewBatchedPrivateIssuer(w.other)
+		w.verify = func(o bool, tok tokens.Token) error {
+			if o {
+				return issOther.Verify(tok)
+			}
+			return iss.Verify(tok)
+		}
+	}
+	return w
+}
+
+func (w *verifyWorld) step(c *ctx, tm map[string]any, r *rand.Rand) ev {
 	kind, _ := tm["kind"].(string)
-	r := newRand(c.seed, fmt.Sprintf("verify-%v", in["rid"]))
+	t := w.t
 	e := ev{"op": "Verify", "t": t, "tmut": tm, "ok": false, "ref_ok": false, "panic": ""}
 	e["panic"] = guard(func() {
-		var tok tokens.Token
-		var suite oprf.Suite
-		var key, other *oprf.PrivateKey
-		var verify func(k *oprf.PrivateKey, tok tokens.Token) error
-		if t == 1 {
-			suite, key, other = oprf.SuiteP384, p384Key(c.seed, "k1"), p384Key(c.seed, "k2")
-			a, err := honestT1(key, randBytes(r, 12), randNonce(r), false)
-			if err != nil {
-				panic(err)
-			}
-			tok = a.token
-			verify = func(k *oprf.PrivateKey, tok tokens.Token) error { return type1.NewBasicPrivateIssuer(k).Verify(tok) }
-		} else {
-			suite, key, other = oprf.SuiteRistretto255, ristrettoKey(c.seed, "k1"), ristrettoKey(c.seed, "k2")
-			a, err := honestT5(key, randBytes(r, 12), [][]byte{randNonce(r), randNonce(r)}, false)
-			if err != nil {
-				panic(err)
-			}
-			tok = a.tokens[1]
-			verify = func(k *oprf.PrivateKey, tok tokens.Token) error { return type5.NewBatchedPrivateIssuer(k).Verify(tok) }
-		}
 		cp := func(b []byte) []byte { return append([]byte{}, b...) }
-		tok = tokens.Token{TokenType: tok.TokenType, Nonce: cp(tok.Nonce), Context: cp(tok.Context), KeyID: cp(tok.KeyID), Authenticator: cp(tok.Authenticator)}
-		vkey := key
+		tok := tokens.Token{TokenType: w.tok.TokenType, Nonce: cp(w.tok.Nonce), Context: cp(w.tok.Context), KeyID: cp(w.tok.KeyID), Authenticator: cp(w.tok.Authenticator)}
+		useOther := false
 		switch kind {
 		case "Id":
 		case "Flip":
@@ -503,7 +531,7 @@ func execVerify(c *ctx, in ev) ev {
 		case "TypeField":
 			tok.TokenType ^= uint16(1) << uint(jInt(tm["bit"])%16)
 		case "OtherKey":
-			vkey = other
+			useOther = true
 		case "OtherType": // a token of the other VOPRF type presented to this issuer
 			if t == 1 {
 				a, _ := honestT5(ristrettoKey(c.seed, "k1"), randBytes(r, 12), [][]byte{randNonce(r)}, false)
@@ -522,6 +550,12 @@ func execVerify(c *ctx, in ev) ev {
 			tok.Nonce = tok.Nonce[:31]
 		case "NonceLong":
 			tok.Nonce = append(tok.Nonce, 0)
+		case "KeyIDShort":
+			tok.KeyID = tok.KeyID[1:]
+		case "KeyIDLong":
+			tok.KeyID = append([]byte{0}, tok.KeyID...)
+		case "KeyIDLastByteOnly":
+			tok.KeyID = tok.KeyID[31:]
 		case "EmptyNonce":
 			tok.Nonce = nil
 		case "EmptyAll":
@@ -536,12 +570,38 @@ func execVerify(c *ctx, in ev) ev {
 			tok.Authenticator = tok.Authenticator[:jInt(tm["k"])%len(tok.Authenticator)]
 		}
 		// independent reference: FullEvaluate over the concatenation the token carries
-		input := append([]byte{byte(tok.TokenType >> 8), byte(tok.TokenType)}, tok.Nonce...)
-		input = append(append(input, tok.Context...), tok.KeyID...)
-		e["ref_ok"] = bytes.Equal(fullEvaluate(suite, vkey, input), tok.Authenticator)
-		e["ok"] = verify(vkey, tok) == nil
+		vkey := w.key
+		if useOther {
+			vkey = w.other
+		}
+		e["ref_ok"] = bytes.Equal(fullEvaluate(w.suite, vkey, authInput(tok)), tok.Authenticator)
+		e["ok"] = w.verify(useOther, tok) == nil
 	})
 	return e
+}
+
+func execVerify(c *ctx, in ev) ev {
+	r := newRand(c.seed, fmt.Sprintf("verify-%v", in["rid"]))
+	tm, _ := in["tmut"].(map[string]any)
+	var e ev
+	if p := guard(func() { e = newVerifyWorld(c, gI(in, "t"), r).step(c, tm, r) }); p != "" {
+		return ev{"op": "Verify", "t": gI(in, "t"), "tmut": tm, "ok": false, "ref_ok": false, "panic": "setup: " + p}
+	}
+	return e
+}
+
+// execVerifySeq: a history of Verify calls on the SAME issuer objects and the same honest token
+func execVerifySeq(c *ctx, in ev) []ev {
+	r := newRand(c.seed, fmt.Sprintf("verifyseq-%v", in["rid"]))
+	var w *verifyWorld
+	if p := guard(func() { w = newVerifyWorld(c, gI(in, "t"), r) }); p != "" {
+		return []ev{{"op": "Verify", "t": gI(in, "t"), "tmut": ev{"kind": "Id"}, "ok": false, "ref_ok": false, "panic": "setup: " + p}}
+	}
+	out := []ev{}
+	for _, st := range gL(in, "steps") {
+		out = append(out, w.step(c, st.(map[string]any), r))
+	}
+	return out
 }
 
 // ---------------------------------------------------------------------------
@@ -553,18 +613,28 @@ func t3ReqFields(req []byte) map[string][2]int {
 		"enc": {85, 85 + encLen}, "sig": {85 + encLen, len(req)}}
 }
 
-func execRLEval(c *ctx, in ev) ev {
-	cls, _ := in["cls"].(map[string]any)
+// rlWorld: one rate-limited issuer (and a foreign one) kept for a whole sequence of Evaluate calls
+type rlWorld struct {
+	origin    string
+	w, other  *t3World
+	secret    []byte
+	prev      *type3.RateLimitedTokenRequest // the last honest request this issuer answered
+	prevBlind []byte
+}
+
+func newRLWorld(c *ctx) *rlWorld {
+	origin := "registered.example"
+	return &rlWorld{origin: origin, w: newT3World(rsaKey(0), c.seed, map[string]string{origin: "a"}),
+		other: newT3World(rsaKey(1), c.seed, map[string]string{origin: "a"}), secret: p384Scalar(c.seed, "rl-client")}
+}
+
+func (x *rlWorld) step(c *ctx, cls map[string]any, r *rand.Rand) ev {
 	kind, _ := cls["kind"].(string)
-	r := newRand(c.seed, fmt.Sprintf("rleval-%v", in["rid"]))
 	e := ev{"op": "RLEval", "cls": cls, "ok": false, "resp_len": 0, "key_len": 0, "err": "", "panic": ""}
 	e["panic"] = guard(func() {
-		origin := "registered.example"
-		w := newT3World(rsaKey(0), c.seed, map[string]string{origin: "a"})
-		other := newT3World(rsaKey(1), c.seed, map[string]string{origin: "a"})
-		secret := p384Scalar(c.seed, "rl-client")
+		origin, w, other, secret := x.origin, x.w, x.other, x.secret
 		blind := randScalar(r)
-		mk := func(w *t3World, origin string) *type3.RateLimitedTokenRequest {
+		mkWith := func(w *t3World, origin string, secret, blind []byte) *type3.RateLimitedTokenRequest {
 			st, err := type3.NewRateLimitedClientFromSecret(secret).CreateTokenRequest(randBytes(r, 9), randNonce(r), blind,
 				w.issuer.TokenKeyID(), w.issuer.TokenKey(), origin, w.issuer.NameKey())
 			if err != nil {
@@ -576,6 +646,9 @@ func execRLEval(c *ctx, in ev) ev {
 			}
 			return out
 		}
+		mk := func(w *t3World, origin string) *type3.RateLimitedTokenRequest {
+			return mkWith(w, origin, secret, blind)
+		}
 		remarshal := func(q *type3.RateLimitedTokenRequest) []byte {
 			return (&type3.RateLimitedTokenRequest{RequestKey: q.RequestKey, NameKeyID: q.NameKeyID,
 				EncryptedTokenRequest: q.EncryptedTokenRequest, Signature: q.Signature}).Marshal()
@@ -584,6 +657,26 @@ func execRLEval(c *ctx, in ev) ev {
 		enc := remarshal(req)
 		switch kind {
 		case "Id":
+			x.prev, x.prevBlind = req, blind
+		case "ReplaySame": // the request answered before, again (the issuer keeps no per-request state)
+			if x.prev != nil {
+				enc = remarshal(x.prev)
+			}
+		case "ReplayEncOtherKey": // the ciphertext answered before, under another client's request key, consistently re-signed
+			if x.prev != nil {
+				secret2 := p384Scalar(c.seed, "rl-client-2")
+				q2 := mkWith(w, origin, secret2, x.prevBlind)
+				q2.NameKeyID, q2.EncryptedTokenRequest = x.prev.NameKeyID, x.prev.EncryptedTokenRequest
+				q2.Signature = signT3(secret2, x.prevBlind, q2)
+				enc = remarshal(q2)
+			}
+		case "ReplayEncFlipped": // the ciphertext answered before with one bit changed, consistently re-signed
+			if x.prev != nil {
+				q2 := &type3.RateLimitedTokenRequest{RequestKey: x.prev.RequestKey, NameKeyID: x.prev.NameKeyID,
+					EncryptedTokenRequest: flipBit(x.prev.EncryptedTokenRequest, jInt(cls["bit"]))}
+				q2.Signature = signT3(secret, x.prevBlind, q2)
+				enc = remarshal(q2)
+			}
 		case "Flip":
 			f := t3ReqFields(enc)[cls["f"].(string)]
 			bit := jInt(cls["bit"]) % ((f[1] - f[0]) * 8)
@@ -632,6 +725,27 @@ func execRLEval(c *ctx, in ev) ev {
 		e["resp_len"], e["key_len"] = len(resp), len(key)
 	})
 	return e
+}
+
+func execRLEval(c *ctx, in ev) ev {
+	cls, _ := in["cls"].(map[string]any)
+	r := newRand(c.seed, fmt.Sprintf("rleval-%v", in["rid"]))
+	var e ev
+	if p := guard(func() { e = newRLWorld(c).step(c, cls, r) }); p != "" {
+		return ev{"op": "RLEval", "cls": cls, "ok": false, "resp_len": 0, "key_len": 0, "err": "", "panic": "setup: " + p}
+	}
+	return e
+}
+
+// execRLSeq: a history of Evaluate calls on ONE issuer object
+func execRLSeq(c *ctx, in ev) []ev {
+	r := newRand(c.seed, fmt.Sprintf("rlseq-%v", in["rid"]))
+	x := newRLWorld(c)
+	out := []ev{}
+	for _, st := range gL(in, "steps") {
+		out = append(out, x.step(c, st.(map[string]any), r))
+	}
+	return out
 }
 
 // signT3 signs a rate-limited request with the secret key blinded by blind
@@ -751,30 +865,53 @@ func execDet(c *ctx, in ev) []ev {
 	// Phase 1 creates every request of the matrix, phase 2 evaluates and
 	// finalizes them in reverse order: request states must not share blinds
 	// or buffers with requests created later.
+	// mode "shared": the caller keeps ONE buffer per argument (nonce, challenge, blind, salt) and refills it for every
+	// request, as a client looping over requests does; mode "par": requests are created (and later finalized) by
+	// several goroutines at once, each from buffers of its own that are overwritten as soon as creation returns.
+	mode := gS(in, "mode")
 	type pending struct {
-		e   ev
-		fin func() ([]byte, error)
+		e      ev
+		req    []byte
+		elems  [][]byte
+		enames []any
+		fin    func() ([]byte, error)
+		tok    []byte
 	}
-	var pend []pending
-	for _, row := range gL(in, "rows") {
-		rw := row.(map[string]any)
+	shared := map[string][]byte{}
+	var mine [][]byte // par mode: this call's argument buffers
+	arg := func(own *[][]byte, name string, data []byte) []byte {
+		if mode == "shared" {
+			if b, ok := shared[name]; ok && len(b) == len(data) {
+				copy(b, data)
+				return b
+			}
+			shared[name] = append(make([]byte, 0, len(data)), data...)
+			return shared[name]
+		}
+		b := append(make([]byte, 0, len(data)), data...)
+		*own = append(*own, b)
+		return b
+	}
+	_ = mine
+	create := func(rw map[string]any) *pending {
 		t, key, nc, blind, salt := jInt(rw["t"]), rw["key"].(string), rw["nc"].(string), rw["blind"].(string), rw["salt"].(string)
-		e := ev{"op": "Det", "t": t, "key": key, "nc": nc, "blind": blind, "salt": salt, "ok": false, "req": "", "tok": "", "err": "", "elems": []any{}}
-		var fin func() ([]byte, error)
+		pe := &pending{e: ev{"op": "Det", "t": t, "key": key, "nc": nc, "blind": blind, "salt": salt, "ok": false, "req": "", "tok": "", "err": "", "elems": []any{}}}
+		e := pe.e
+		var own [][]byte
 		p := guard(func() {
-			challenge := hashBytes(c.seed, "det-ch-"+nc, 24)
-			nonce := hashBytes(c.seed, "det-nonce-"+nc, 32)
+			challenge := arg(&own, "challenge", hashBytes(c.seed, "det-ch-"+nc, 24))
+			nonce := arg(&own, "nonce", hashBytes(c.seed, "det-nonce-"+nc, 32))
 			switch t {
 			case 1:
 				k := p384Key(c.seed, key)
 				iss := type1.NewBasicPrivateIssuer(k)
-				st, err := type1.NewBasicPrivateClient().CreateTokenRequestWithBlind(challenge, nonce, iss.TokenKeyID(), iss.TokenKey(), detBlind(c.seed, 1, blind))
+				st, err := type1.NewBasicPrivateClient().CreateTokenRequestWithBlind(challenge, nonce, iss.TokenKeyID(), iss.TokenKey(), arg(&own, "blind1", detBlind(c.seed, 1, blind)))
 				if err != nil {
 					e["err"] = err.Error()
 					return
 				}
-				e["req"] = reqs.id(st.Request().Marshal())
-				fin = func() ([]byte, error) {
+				pe.req = st.Request().Marshal()
+				pe.fin = func() ([]byte, error) {
 					resp, err := iss.Evaluate(st.Request())
 					if err != nil {
 						return nil, err
@@ -792,13 +929,13 @@ func execDet(c *ctx, in ev) []ev {
 				k := rsaKey(rsaIdx(key))
 				iss := type2.NewBasicPublicIssuer(k)
 				st, err := type2.NewBasicPublicClient().CreateTokenRequestWithBlind(challenge, nonce, iss.TokenKeyID(), iss.TokenKey(),
-					detBlind(c.seed, 2, blind), hashBytes(c.seed, "det-salt-"+salt, 48))
+					arg(&own, "blind2", detBlind(c.seed, 2, blind)), arg(&own, "salt", hashBytes(c.seed, "det-salt-"+salt, 48)))
 				if err != nil {
 					e["err"] = err.Error()
 					return
 				}
-				e["req"] = reqs.id(st.Request().Marshal())
-				fin = func() ([]byte, error) {
+				pe.req = st.Request().Marshal()
+				pe.fin = func() ([]byte, error) {
 					resp, err := iss.Evaluate(st.Request())
 					if err != nil {
 						return nil, err
@@ -807,6 +944,9 @@ func execDet(c *ctx, in ev) []ev {
 					if err != nil {
 						return nil, err
 					}
+					if verifyPSS(&k.PublicKey, tok) != nil {
+						return nil, fmt.Errorf("token does not verify")
+					}
 					return tok.Marshal(), nil
 				}
 			case 5:
@@ -814,26 +954,23 @@ func execDet(c *ctx, in ev) []ev {
 				iss := type5.NewBatchedPrivateIssuer(k)
 				// the row's nonce/blind lists: "n1+n2" style names select the batch composition
 				var nonces, blinds [][]byte
-				var names []any
 				bnames := strings.Split(blind, "+")
 				for i, nn := range strings.Split(nc, "+") {
-					nonces = append(nonces, hashBytes(c.seed, "det-nonce-"+nn, 32))
-					blinds = append(blinds, detBlind(c.seed, 5, bnames[i]))
-					names = append(names, []any{nn, bnames[i]})
+					nonces = append(nonces, arg(&own, fmt.Sprintf("nonce5-%d", i), hashBytes(c.seed, "det-nonce-"+nn, 32)))
+					blinds = append(blinds, arg(&own, fmt.Sprintf("blind5-%d", i), detBlind(c.seed, 5, bnames[i])))
+					pe.enames = append(pe.enames, []any{nn, bnames[i]})
 				}
-				challenge = hashBytes(c.seed, "det-ch-t5", 24)
+				challenge = arg(&own, "challenge5", hashBytes(c.seed, "det-ch-t5", 24))
 				st, err := type5.NewBatchedPrivateClient().CreateTokenRequestWithBlinds(challenge, nonces, iss.TokenKeyID(), iss.TokenKey(), blinds)
 				if err != nil {
 					e["err"] = err.Error()
 					return
 				}
-				e["req"] = reqs.id(st.Request().Marshal())
-				el := []any{}
-				for i, x := range st.Request().BlindedReq {
-					el = append(el, []any{names[i].([]any)[0], names[i].([]any)[1], elems.id(x)})
+				pe.req = st.Request().Marshal()
+				for _, x := range st.Request().BlindedReq {
+					pe.elems = append(pe.elems, append([]byte{}, x...))
 				}
-				e["elems"] = el
-				fin = func() ([]byte, error) {
+				pe.fin = func() ([]byte, error) {
 					resp, err := iss.Evaluate(st.Request())
 					if err != nil {
 						return nil, err
@@ -855,13 +992,16 @@ func execDet(c *ctx, in ev) []ev {
 		})
 		if p != "" {
 			e["err"] = "panic: " + p
+			pe.fin = nil
 		}
-		pend = append(pend, pending{e, fin})
+		for _, b := range own { // the arguments were the caller's: it reuses them
+			poison(b)
+		}
+		return pe
 	}
-	for i := len(pend) - 1; i >= 0; i-- {
-		pe := pend[i]
+	finish := func(pe *pending) {
 		if pe.fin == nil {
-			continue
+			return
 		}
 		p := guard(func() {
 			tb, err := pe.fin()
@@ -869,14 +1009,211 @@ func execDet(c *ctx, in ev) []ev {
 				pe.e["err"] = err.Error()
 				return
 			}
-			pe.e["tok"], pe.e["ok"] = toks.id(tb), true
+			pe.tok, pe.e["ok"] = tb, true
 		})
 		if p != "" {
-			pe.e["err"] = "panic: " + p
+			pe.e["err"], pe.e["ok"] = "panic: "+p, false
+		}
+	}
+	rows := gL(in, "rows")
+	pend := make([]*pending, len(rows))
+	if mode == "par" {
+		const G = 8
+		var wg sync.WaitGroup
+		for phase := 0; phase < 2; phase++ {
+			start := make(chan struct{})
+			for g := 0; g < G; g++ {
+				g := g
+				wg.Add(1)
+				go func() {
+					defer wg.Done()
+					<-start
+					for i := g; i < len(rows); i += G {
+						if phase == 0 {
+							pend[i] = create(rows[i].(map[string]any))
+						} else {
+							finish(pend[len(rows)-1-i])
+						}
+					}
+				}()
+			}
+			close(start)
+			wg.Wait()
+		}
+	} else {
+		for i, row := range rows {
+			pend[i] = create(row.(map[string]any))
+		}
+		for _, b := range shared {
+			poison(b)
+		}
+		for i := len(pend) - 1; i >= 0; i-- {
+			finish(pend[i])
 		}
 	}
 	for _, pe := range pend {
+		if pe.req != nil {
+			pe.e["req"] = reqs.id(pe.req)
+		}
+		el := []any{}
+		for i, x := range pe.elems {
+			el = append(el, []any{pe.enames[i].([]any)[0], pe.enames[i].([]any)[1], elems.id(x)})
+		}
+		pe.e["elems"] = el
+		if pe.e["ok"] == true {
+			pe.e["tok"] = toks.id(pe.tok)
+		}
 		out = append(out, pe.e)
+	}
+	return out
+}
+
+// execDetStress: request creation with caller-supplied blinds is a pure function - also when many goroutines create
+// requests under the same key object at once (a client issuing requests in parallel). Every argument set is evaluated
+// once alone and then `rounds` times by each of G goroutines; the event reports how many distinct requests / tokens
+// were seen per argument set.
+func execDetStress(c *ctx, in ev) []ev {
+	t, G, rounds, nsets := gI(in, "t"), gI(in, "g"), gI(in, "rounds"), gI(in, "sets")
+	type set struct {
+		nonce, blind, salt []byte
+		mu                 sync.Mutex
+		reqs, toks         map[string]bool
+		calls, errs        int
+		firstErr           string
+	}
+	challenge := hashBytes(c.seed, "stress-ch", 24)
+	var create func(s *set, finalize bool) ([]byte, []byte, error)
+	switch t {
+	case 1:
+		iss := type1.NewBasicPrivateIssuer(p384Key(c.seed, "k1"))
+		kid, pk := iss.TokenKeyID(), iss.TokenKey()
+		create = func(s *set, finalize bool) ([]byte, []byte, error) {
+			st, err := type1.NewBasicPrivateClient().CreateTokenRequestWithBlind(challenge, s.nonce, kid, pk, s.blind)
+			if err != nil || !finalize {
+				if err != nil {
+					return nil, nil, err
+				}
+				return st.Request().Marshal(), nil, nil
+			}
+			resp, err := iss.Evaluate(st.Request())
+			if err != nil {
+				return nil, nil, err
+			}
+			tok, err := st.FinalizeToken(resp)
+			if err != nil {
+				return nil, nil, err
+			}
+			return st.Request().Marshal(), tok.Marshal(), nil
+		}
+	case 2:
+		iss := type2.NewBasicPublicIssuer(rsaKey(0))
+		kid, pk := iss.TokenKeyID(), iss.TokenKey() // ONE key object shared by all requests
+		create = func(s *set, finalize bool) ([]byte, []byte, error) {
+			st, err := type2.NewBasicPublicClient().CreateTokenRequestWithBlind(challenge, s.nonce, kid, pk, s.blind, s.salt)
+			if err != nil || !finalize {
+				if err != nil {
+					return nil, nil, err
+				}
+				return st.Request().Marshal(), nil, nil
+			}
+			resp, err := iss.Evaluate(st.Request())
+			if err != nil {
+				return nil, nil, err
+			}
+			tok, err := st.FinalizeToken(resp)
+			if err != nil {
+				return nil, nil, err
+			}
+			return st.Request().Marshal(), tok.Marshal(), nil
+		}
+	case 5:
+		iss := type5.NewBatchedPrivateIssuer(ristrettoKey(c.seed, "k1"))
+		kid, pk := iss.TokenKeyID(), iss.TokenKey()
+		create = func(s *set, finalize bool) ([]byte, []byte, error) {
+			nonces := [][]byte{s.nonce, s.salt[:32]}
+			blinds := [][]byte{s.blind[:32], s.blind[32:64]}
+			st, err := type5.NewBatchedPrivateClient().CreateTokenRequestWithBlinds(challenge, nonces, kid, pk, blinds)
+			if err != nil || !finalize {
+				if err != nil {
+					return nil, nil, err
+				}
+				return st.Request().Marshal(), nil, nil
+			}
+			resp, err := iss.Evaluate(st.Request())
+			if err != nil {
+				return nil, nil, err
+			}
+			ts, err := st.FinalizeTokens(resp)
+			if err != nil {
+				return nil, nil, err
+			}
+			var all []byte
+			for _, tk := range ts {
+				all = append(all, tk.Marshal()...)
+			}
+			return st.Request().Marshal(), all, nil
+		}
+	}
+	sets := make([]*set, nsets)
+	for i := range sets {
+		s := &set{nonce: hashBytes(c.seed, fmt.Sprintf("stress-nonce-%d", i), 32), salt: hashBytes(c.seed, fmt.Sprintf("stress-salt-%d", i), 48),
+			reqs: map[string]bool{}, toks: map[string]bool{}}
+		switch t {
+		case 1:
+			s.blind = detBlind(c.seed, 1, fmt.Sprintf("sb%d", i))
+		case 2:
+			s.blind = hashBytes(c.seed, fmt.Sprintf("stress-blind-%d", i), 255)
+			s.blind[0] |= 1
+		case 5:
+			s.blind = append(detBlind(c.seed, 5, fmt.Sprintf("sb%d", i)), detBlind(c.seed, 5, fmt.Sprintf("sc%d", i))...)
+		}
+		sets[i] = s
+	}
+	one := func(s *set, finalize bool) {
+		var req, tok []byte
+		var err error
+		if p := guard(func() { req, tok, err = create(s, finalize) }); p != "" {
+			err = fmt.Errorf("panic: %s", p)
+		}
+		s.mu.Lock()
+		defer s.mu.Unlock()
+		s.calls++
+		if err != nil {
+			s.errs++
+			if s.firstErr == "" {
+				s.firstErr = err.Error()
+			}
+			return
+		}
+		s.reqs[string(req)] = true
+		if tok != nil {
+			s.toks[string(tok)] = true
+		}
+	}
+	for _, s := range sets { // alone, one call at a time
+		one(s, true)
+	}
+	var wg sync.WaitGroup
+	start := make(chan struct{})
+	for w := 0; w < G; w++ {
+		w := w
+		wg.Add(1)
+		go func() {
+			defer wg.Done()
+			<-start
+			for r := 0; r < rounds; r++ {
+				for i := range sets {
+					one(sets[(i+w)%len(sets)], (i+r+w)%8 == 0)
+				}
+			}
+		}()
+	}
+	close(start)
+	wg.Wait()
+	out := []ev{}
+	for i, s := range sets {
+		out = append(out, ev{"op": "DetStress", "t": t, "set": i, "goroutines": G, "calls": s.calls, "errors": s.errs, "err": s.firstErr,
+			"distinct_req": len(s.reqs), "distinct_tok": len(s.toks)})
 	}
 	return out
 }
@@ -1112,6 +1449,14 @@ func genIssuance(c *ctx, emit func(ev)) {
 					run(t, n, 16, 14, ev{"kind": "Flip", "f": f, "bit": bit})
 				}
 			}
+			if t == 5 {
+				// every bit of the list's length prefix, for every width of that prefix that occurs (one and two bytes)
+				for _, n5 := range []int{1, 2, 3, c.tierInt(4, 8)} {
+					for b := 0; b < 16; b++ {
+						run(5, n5, 16, 0, ev{"kind": "Flip", "f": "len", "bit": b})
+					}
+				}
+			}
 			for rep := 0; rep < c.tierInt(2, 6); rep++ {
 				if t == 1 || t == 5 {
 					run(t, n, 16, 14, ev{"kind": "ForeignKeyCollide"})
@@ -1177,8 +1522,20 @@ func genIssuance(c *ctx, emit func(ev)) {
 			for b := 0; b < 16; b++ {
 				ver(t, ev{"kind": "TypeField", "bit": b})
 			}
-			for _, k := range []string{"ShiftNonceContext", "ShiftContextKeyID", "NonceShort", "NonceLong", "EmptyNonce", "EmptyAll", "AuthShort", "AuthLong", "AuthEmpty"} {
+			for _, k := range []string{"ShiftNonceContext", "ShiftContextKeyID", "NonceShort", "NonceLong", "KeyIDShort", "KeyIDLong", "KeyIDLastByteOnly",
+				"EmptyNonce", "EmptyAll", "AuthShort", "AuthLong", "AuthEmpty"} {
 				ver(t, ev{"kind": k})
+			}
+			// histories on ONE issuer object: an honest token first, then variants that share its nonce / authenticator
+			for rep := 0; rep < c.tierInt(3, 12); rep++ {
+				steps := []any{ev{"kind": "Id"}}
+				for _, f := range []string{"context", "key_id", "nonce", "auth"} {
+					steps = append(steps, ev{"kind": "Flip", "f": f, "bit": r.Intn(256)}, ev{"kind": "Id"})
+				}
+				steps = append(steps, ev{"kind": "TypeField", "bit": r.Intn(16)}, ev{"kind": "OtherKey"}, ev{"kind": "Id"},
+					ev{"kind": "ShiftNonceContext"}, ev{"kind": "KeyIDLastByteOnly"}, ev{"kind": "AuthPrefix", "k": 5}, ev{"kind": "Id"})
+				vid++
+				emit(ev{"op": "VerifySeq", "rid": vid, "t": t, "steps": steps})
 			}
 			for k := 0; k < authLen; k += c.tierInt(5, 1) {
 				ver(t, ev{"kind": "AuthPrefix", "k": k})
@@ -1207,6 +1564,15 @@ func genIssuance(c *ctx, emit func(ev)) {
 			for _, v := range []string{"last-byte", "prefix", "suffix", "inner-nul", "case", "empty", "long", "nul-suffix", "nul-suffix-short", "nul-prefix"} {
 				rl(ev{"kind": "Unregistered", "variant": v})
 			}
+		}
+		// histories on ONE issuer object: answered requests followed by replays of their parts
+		for rep := 0; rep < c.tierInt(4, 16); rep++ {
+			steps := []any{ev{"kind": "Id"}, ev{"kind": "ReplaySame"}, ev{"kind": "ReplayEncOtherKey"}, ev{"kind": "Id"},
+				ev{"kind": "ReplayEncFlipped", "bit": r.Intn(2000)}, ev{"kind": "Flip", "f": "sig", "bit": r.Intn(768)}, ev{"kind": "Id"},
+				ev{"kind": "Unregistered", "variant": "long"}, ev{"kind": "Unregistered", "variant": "empty"}, ev{"kind": "Id"},
+				ev{"kind": "ReplayEncOtherKey"}, ev{"kind": "BadKey"}, ev{"kind": "ReplaySame"}}
+			qid++
+			emit(ev{"op": "RLSeq", "rid": qid, "steps": steps})
 		}
 		// every bit of an encoded request (both tiers; rejections are cheap)
 		sizes := map[string]int{"type": 2, "request_key": 49, "name_key_id": 32, "enc_len": 2, "enc": 32 + 259 + 32 + 16, "sig": 96}
@@ -1245,7 +1611,13 @@ func genIssuance(c *ctx, emit func(ev)) {
 				}
 			}
 		}
-		emit(ev{"op": "DetMatrix", "rows": rows})
+		emit(ev{"op": "DetMatrix", "rows": rows, "mode": "shared"})
+		for rep := 0; rep < c.tierInt(3, 12); rep++ {
+			emit(ev{"op": "DetMatrix", "rows": rows, "mode": "par", "rep": rep})
+		}
+		for _, t := range []int{1, 2, 5} {
+			emit(ev{"op": "DetStress", "t": t, "g": 16, "rounds": c.tierInt(10, 60), "sets": 12})
+		}
 		emit(ev{"op": "Vectors"})
 	}
 }
